@@ -47,4 +47,25 @@ def allocA (z : α) (dim Ns : Nat) (old : Option (List (List α))) : List (List 
 /-- the columns of an array, first to last: the representation used by `Model/C09.lean` -/
 def colsA (z : α) (A : List (List α)) : List (List α) := (List.range (widthA A)).map (colA z A)
 
+/-- the loop `for i in range(at_Ns, at_Ns + Ns): …; samples[par][:, i] = current[par]` for one block:
+    `vals t` is the block's value after sweep number `t` of the sampling phase (counted over the whole run) -/
+def storeLoopA (vals : Nat → List α) : Nat → Nat → Nat → List (List α) → List (List α)
+  | _, _, 0, A => A
+  | i, t, k + 1, A => storeLoopA vals (i + 1) (t + 1) k (setColA A i (vals t))
+
+/-- `self._Ns`: the width of the existing sample array, 0 when the attribute does not exist -/
+def atNsA (old : Option (List (List α))) : Nat :=
+  match old with
+  | none => 0
+  | some A => widthA A
+
+/-- the sampling-phase array of one block over the calls `sample(Ns₁); sample(Ns₂); …` of legacy `Gibbs`:
+    `at_Ns = self._Ns` (the width of the existing array, 0 without one) is read before `_allocate_samples`;
+    the state is (the attribute `samples[par]` if it exists, number of sweeps made so far) -/
+def runCallsA (z : α) (dim : Nat) (vals : Nat → List α) :
+    List Nat → Option (List (List α)) × Nat → Option (List (List α)) × Nat
+  | [], st => st
+  | Ns :: r, (old, t) =>
+    runCallsA z dim vals r (some (storeLoopA vals (atNsA old) t Ns (allocA z dim Ns old)), t + Ns)
+
 end CuqiVerif.C09
